@@ -102,6 +102,7 @@ func (e *Engine) VerifyFunction(fn *ssa.Function, c *Contract) *FnCtx {
 	fr.run(st, "true")
 	// post-conditions per return site
 	for ri, r := range fr.rets {
+		fc.curBlock = r.blk
 		renv := map[string]Val{}
 		for k, v := range fr.params {
 			renv[k] = v
@@ -133,7 +134,7 @@ func (e *Engine) VerifyFunction(fn *ssa.Function, c *Contract) *FnCtx {
 			fr.frameObligations(ri, r)
 		}
 		// cover: the return site is reachable
-		o := &Obligation{Name: fmt.Sprintf("cover:return#%d", ri+1), Kind: "cover", Func: fc.fnName(), Guard: r.guard, Goal: "false", NFacts: len(fc.facts), fc: fc, Props: c.Props, Cover: true}
+		o := &Obligation{Name: fmt.Sprintf("cover:return#%d", ri+1), Kind: "cover", Func: fc.fnName(), Guard: r.guard, Goal: "false", NFacts: len(fc.facts), fc: fc, Props: c.Props, Cover: true, Block: r.blk}
 		fc.obls = append(fc.obls, o)
 	}
 	if len(fr.rets) == 0 {
@@ -228,6 +229,7 @@ func symsOf(s string) []string {
 
 // sineSelect: SInE-style relevance filter. A fact is triggered by its rarest symbols; starting from the symbols
 // of the goal, triggered facts are added until a fixpoint. Dropping hypotheses is sound.
+var reDefHead = regexp.MustCompile(`^\(assert \(= (\|[^|]*\||[A-Za-z_$][A-Za-z0-9_$.@]*![0-9]+) `)
 var reReach = regexp.MustCompile(`^R(inv|\d+_)!\d+$`)
 
 func sineSelect(texts []string, goal string, tolerance float64) []bool {
@@ -255,6 +257,12 @@ func sineSelect(texts []string, goal string, tolerance float64) []bool {
 		}
 	}
 	triggers := map[string][]int{}
+	for i, t := range texts {
+		// a definition (= c term) is always triggered by the constant it defines
+		if m := reDefHead.FindStringSubmatch(t); m != nil && !reReach.MatchString(m[1]) {
+			triggers[m[1]] = append(triggers[m[1]], i)
+		}
+	}
 	for i, ss := range fsyms {
 		if len(ss) == 0 {
 			continue
@@ -346,6 +354,10 @@ func rdefOf(rdef map[string]int, i int) (string, bool) {
 }
 
 func (o *Obligation) BuildQueryS(withModel bool, lite bool, ground bool, sine bool) string {
+	return o.BuildQueryT(withModel, lite, ground, sine, 2.0)
+}
+
+func (o *Obligation) BuildQueryT(withModel bool, lite bool, ground bool, sine bool, tol float64) string {
 	fc := o.fc
 	var sb strings.Builder
 	sb.WriteString(prelude)
@@ -397,9 +409,19 @@ func (o *Obligation) BuildQueryS(withModel bool, lite bool, ground bool, sine bo
 	for _, t := range indexTerms(o.Goal + " " + o.Guard) {
 		addc(t)
 	}
+	var anc map[*ssa.BasicBlock]bool
+	if o.Block != nil {
+		anc = fc.ancestors(o.Block)
+	}
 	for _, f := range fc.facts[:o.NFacts] {
 		if lite && (f.Class == "closed" || f.Class == "frameq") {
 			continue
+		}
+		// a fact guarded by the reach condition of a block that is not on any path to the obligation is irrelevant
+		if anc != nil && f.Guard != "true" {
+			if gb, ok := fc.reachBlock[f.Guard]; ok && !anc[gb] {
+				continue
+			}
 		}
 		for _, q := range f.Quants {
 			for _, c := range append(append([]string{}, cands...), q.Consts...) {
@@ -431,7 +453,7 @@ func (o *Obligation) BuildQueryS(withModel bool, lite bool, ground bool, sine bo
 		}
 	}
 	if sine {
-		keep := sineSelect(body, o.Guard+" "+o.Goal, 2.0)
+		keep := sineSelect(body, o.Guard+" "+o.Goal, tol)
 		for i, t := range body {
 			if keep[i] {
 				sb.WriteString(t)
